@@ -4,6 +4,7 @@ pub mod refs;
 pub mod screen;
 pub mod session;
 pub mod sink;
+pub mod sinkkinds;
 pub mod decl;
 pub mod gencrate;
 pub mod genrun;
